@@ -15,6 +15,7 @@ var VfHarnesses = map[string]func(){
 	"VerifC20InterleavedAuth":  VerifC20InterleavedAuth,
 	"VerifC20Malformed":        VerifC20Malformed,
 	"VerifC20Chunks20":         VerifC20Chunks20,
+	"VerifC20Chunks13":         VerifC20Chunks13,
 	"VerifC20Lemma99":          VerifC20Lemma99,
 	"VerifC20Lemma267":         VerifC20Lemma267,
 	"VerifC20Chunks101":        VerifC20Chunks101,
